@@ -173,6 +173,8 @@ class C13(Check):
             role = rng.choice(['instance', 'instance_lazy', 'validate', 'main_schema'])
         if chan[1] in ('http', 'http_opener') and rng.random() < 0.5:
             peer = rng.choice(['payload_then_benign', 'benign_then_payload'])
+        if peer != 'constant' and role not in ('instance_lazy', 'hinted', 'docapi_schema') and rng.random() < 0.5:
+            role = 'instance_lazy'      # a lazy resource opens its source again for every iteration
         case = {'mode': mode, 'chan': chan[0], 'role': role, 'payload': payload, 'prolog': prolog, 'peer': peer,
                 'pseed': rng.randrange(1 << 30)}
         if role in ('included', 'imported', 'redefined', 'hinted') and rng.random() < 0.4:
